@@ -12,6 +12,7 @@ var machines = []uint16{0x8664, 0xaa64, 0x1c4, 0x14c, 0x5032, 0x5064, 0x5128, 0x
 // PEOpts bounds the generated images.
 type PEOpts struct {
 	MaxSections    int
+	Many           bool // one image in sixteen has 13..48 (small) sections
 	MaxSectionSize int
 	MaxTrailing    int
 	Table          bool // allow an existing certificate table
@@ -19,7 +20,7 @@ type PEOpts struct {
 }
 
 // DefaultPE is the C01 bound: <= 8 sections, images of a few KiB.
-var DefaultPE = PEOpts{MaxSections: 8, MaxSectionSize: 600, MaxTrailing: 64, Table: true, Big: true}
+var DefaultPE = PEOpts{MaxSections: 8, MaxSectionSize: 600, MaxTrailing: 64, Table: true, Big: true, Many: true}
 
 // SmallPE gives images of at most ~2 KiB (exhaustive per-byte work, signing).
 var SmallPE = PEOpts{MaxSections: 4, MaxSectionSize: 120, MaxTrailing: 24, Table: true}
@@ -51,6 +52,14 @@ func PEImage(o PEOpts) *rapid.Generator[[]byte] {
 		}
 		optSize := optFixed + 8*ndirs
 		nsec := rapid.IntRange(0, o.MaxSections).Draw(t, "nsec")
+		maxSecSize := o.MaxSectionSize
+		if o.Many && rapid.IntRange(0, 15).Draw(t, "manysections") == 0 {
+			// more sections than small-slice code paths handle (sorting switches algorithm above 12 elements, ...)
+			nsec = rapid.IntRange(13, 48).Draw(t, "nsecmany")
+			if maxSecSize > 48 {
+				maxSecSize = 48
+			}
+		}
 		optOff := lfanew + 24
 		secTable := optOff + optSize
 		headersEnd := secTable + 40*nsec
@@ -94,7 +103,7 @@ func PEImage(o PEOpts) *rapid.Generator[[]byte] {
 			if gaps {
 				cursor += rapid.IntRange(0, 32).Draw(t, "gap")
 			}
-			size := rapid.IntRange(1, o.MaxSectionSize).Draw(t, "secsize")
+			size := rapid.IntRange(1, maxSecSize).Draw(t, "secsize")
 			if big && i == bigAt {
 				// the section ends at file offset 32768*k + 12: after the 12 excluded header bytes (checksum,
 				// directory entry) the hashed stream is then exactly at a multiple of 32 KiB
